@@ -155,6 +155,7 @@ SCRIPTS = {
     "include": [("include", "A", "/A_main")],
     "include-after-deferred": [("deferred", "A"), ("include", "A", "/A_main")],
     "repository": [("repository", "A")],
+    "doc-repository": [("docrepository", "A"), ("load", "A")],
     "refresh": [("deferred", "A"), ("load", "A"), ("refresh", "A"), ("load", "A")],
     "deferred-root-load-leaf": [("deferred", "A"), ("load", "B"), ("load", "B"), ("load", "A"), ("load", "B")],
     "refresh-after-background-load": [("deferred", "A"), ("refresh", "A"), ("load", "A"), ("load", "A")],
@@ -236,6 +237,15 @@ def run_script(script, urls, use_deferred=True):
                 if not use_deferred:
                     s._repository = url
                 r = s.get_terminology_equivalent()
+                outcomes.append(("doc", model.model_of(r)) if r is not None else ("none", None))
+            elif op == "docrepository":
+                # the Document-level variant: the setter starts a background load, the query must wait for it
+                doc = odml.Document()
+                if use_deferred:
+                    doc.repository = url
+                else:
+                    doc._repository = url
+                r = doc.get_terminology_equivalent()
                 outcomes.append(("doc", model.model_of(r)) if r is not None else ("none", None))
             elif op == "modify":
                 # the resource changes on disk (same structure, other content)
@@ -388,7 +398,7 @@ def judge(rec, scn, urls, ref, s, outcomes, objs, before, after, fs, decisions):
                                   sk, i, "nothing" if scn["cache"] == "empty" else "an outdated copy"), case)
     if scn["graph"] in ("single", "chain", "nested", "nested-whole", "diamond") and len(outcomes) == len(script):
         for i, (step, o) in enumerate(zip(script, outcomes)):
-            if step[0] not in ("load", "tload"):
+            if step[0] not in ("load", "tload", "docrepository"):
                 continue
             exp_names = expected_names(scn["graph"], step[1])
             if exp_names is None:
@@ -544,7 +554,7 @@ def scenarios():
                                                        "template-load-twice"):
                 continue
             for cache in ("empty", "warm", "stale", "warm-outdated"):
-                if cache != "empty" and script in ("include", "repository", "template-deferred-twice"):
+                if cache != "empty" and script in ("include", "repository", "doc-repository", "template-deferred-twice"):
                     continue
                 out.append({"graph": g, "script": script, "cache": cache})
     return out
